@@ -241,6 +241,44 @@ fn run_history(ctx: &mut Ctx, engine: &Engine, labels: &[Label], updates: &[Upd]
         }
         wave = w2;
         ctx.count("updates", 1.0);
+        // wrong-length vectors *derived from the weights in force* in the slot just addressed
+        // (the vector extended by one component, cut by one, and the empty one): all rejected,
+        // nothing changes
+        let cur: Vec<f64> = match u {
+            Upd::Duration(_) => model.duration.clone(),
+            Upd::Parameter(i, _) => model.parameter[*i].clone(),
+            Upd::Gv(i, _) => model.gv[*i].clone(),
+        };
+        let mut probes: Vec<Vec<f64>> = vec![vec![]];
+        let mut ext = cur.clone();
+        ext.push(0.0);
+        probes.push(ext);
+        let mut ext = cur.clone();
+        ext.push(0.25);
+        probes.push(ext);
+        if cur.len() > 1 {
+            probes.push(cur[..cur.len() - 1].to_vec());
+        }
+        for pr in probes {
+            let ok = {
+                let iw = e.condition.get_interporation_weight_mut();
+                match u {
+                    Upd::Duration(_) => iw.set_duration(&pr).is_ok(),
+                    Upd::Parameter(i, _) => iw.set_parameter(*i, &pr).is_ok(),
+                    Upd::Gv(i, _) => iw.set_gv(*i, &pr).is_ok(),
+                }
+            };
+            ctx.count("derived_wrong_length_probes", 1.0);
+            if ok {
+                log.push(format!("{} <- {:?} (wrong length, derived from the weights in force) => Ok", name, pr));
+                ctx.violation("invalid-weights-accepted", J::obj().set("voices", descr).set("history", J::from(log.clone())));
+                return;
+            }
+            if !state_eq(&getters(&e, ns), &model) {
+                ctx.violation("rejected-update-changed-the-weights", J::obj().set("voices", descr).set("history", J::from(log.clone())));
+                return;
+            }
+        }
     }
     // final: a fresh engine given only the effective weights renders the same waveform
     if let Ok(mut fresh) = engine_from_voices(engine.voices.iter().cloned().collect()) {
